@@ -126,14 +126,22 @@ def run_one(ch, cfg):
     nfaults = [0, 0, 1][ch.draw(3, "link.faults")]
     targets = {}
     for _ in range(nfaults):
+        # "fatal-status": a status word outside the device's own range ends the manager by design
+        # (reply without result code, shutdown by the helper thread) while other clients are queued:
+        # whoever is still served gets their own reply, and the device sees whole requests only
         targets[4 + ch.draw(80, "fault.at")] = ch.pick(
-            ["read_err_before", "read_err_after", "write_err", "timeout_before"], "fault.kind")
+            ["read_err_before", "read_err_after", "write_err", "timeout_before", "fatal-status"],
+            "fault.kind")
     faulted = set()
+    fatal = []
 
     def fault_fn(idx, apdu):
         kind = targets.get(idx)
         if kind is not None:
             faulted.add(dev.tag())
+        if kind == "fatal-status":
+            fatal.append(idx)
+            return ("sw", 0x6E00)
         return kind
     w = ServerWorld(ch, fault_fn=fault_fn if nfaults else None,
                     device_cfg={"sig_from_request": True,
@@ -194,6 +202,8 @@ def run_one(ch, cfg):
     cid_of = {}
     for i, req, chk, start, frag in plans:
         d = done.get(i)
+        if fatal and (d is None or d[0] == "refused" or not d[1]):
+            continue              # the manager is going down: not being served is legitimate
         if d is None:
             viol.append(("liveness/unanswered", "client %d (%s) got no reply; scheduler ended with %s"
                          % (i, kinds[i], outcome)))
@@ -206,6 +216,8 @@ def run_one(ch, cfg):
         try:
             rep = json.loads(data.decode())
             assert isinstance(rep, dict) and data.count(b"\n") == 1
+            if fatal and d[2] in faulted:
+                continue          # the request that met the fatal status: no result code by design
         except Exception:
             viol.append(("reply/malformed", "client %d (%s) received %r" % (i, kinds[i], data[:200])))
             continue
